@@ -140,6 +140,53 @@ def s_if_in_loop(X: FLOAT[3], N: INT64) -> FLOAT[3]:
     return acc
 
 
+# the PREVIOUS value of a loop-carried variable is read inside a nested If branch / inner Loop body AFTER the node that
+# computes its next value (the old value stays live through an outer-scope reference only; seeded C13h let the generated
+# Python overwrite the variable too early)
+@script(default_opset=op)
+def s_while_prev_in_if(X: FLOAT[3], L: FLOAT) -> FLOAT[3]:
+    cur = op.Identity(X)
+    best = op.Identity(X)
+    go = op.ReduceSum(cur, keepdims=0) <= L
+    while go:
+        prev = cur
+        cur = op.Mul(cur, 2.0)
+        total = op.ReduceSum(cur, keepdims=0)
+        if total > L:
+            best = op.Identity(prev)
+        else:
+            best = op.Identity(cur)
+        go = total <= L
+    return best
+
+
+@script(default_opset=op)
+def s_for_prev_in_if(X: FLOAT[3], N: INT64) -> FLOAT[3]:
+    cur = op.Identity(X)
+    best = op.Identity(X)
+    for i in range(N):
+        prev = cur
+        cur = op.Add(cur, 1.5)
+        big = op.ReduceSum(cur, keepdims=0) > 6.0
+        if big:
+            best = op.Sub(prev, 100.0)
+        else:
+            best = op.Mul(best, 1.0)
+    return best + cur
+
+
+@script(default_opset=op)
+def s_for_prev_in_inner_loop(X: FLOAT[3], N: INT64) -> FLOAT[3]:
+    cur = op.Identity(X)
+    acc = op.Identity(X)
+    for i in range(N):
+        prev = cur
+        cur = op.Mul(cur, 3.0)
+        for j in range(2):
+            acc = op.Add(acc, prev)
+    return acc + cur
+
+
 @script(default_opset=op)
 def s_loop_in_if(X: FLOAT[3], N: INT64, c: BOOL) -> FLOAT[3]:
     if c:
@@ -309,6 +356,10 @@ _reg(s_while, [dict(X=f32(1, 2, 3)), dict(X=f32(100, 100, 100)), dict(X=f32(0, 0
 _reg(s_for_break, [dict(X=f32(1, 2, 3), N=i64(10)), dict(X=f32(1, 2, 3), N=i64(2)), dict(X=f32(1, 2, 3), N=i64(0)),
                    dict(X=f32(0, 0, 0), N=i64(4))], tags=("for", "break"))
 _reg(s_if_in_loop, [dict(X=x, N=n) for x, n in zip(_X3, (i64(4), i64(3), i64(0)))], tags=("for", "if"))
+_reg(s_while_prev_in_if, [dict(X=f32(1, 2, 3), L=np.array(100.0, F)), dict(X=f32(0.5, 0.25, 0.25), L=np.array(7.0, F)),
+                          dict(X=f32(4, 0, 0), L=np.array(1.0, F))], tags=("while", "if"))
+_reg(s_for_prev_in_if, [dict(X=x, N=n) for x, n in zip(_X3, (i64(4), i64(3), i64(0)))], tags=("for", "if"))
+_reg(s_for_prev_in_inner_loop, [dict(X=x, N=n) for x, n in zip(_X3, (i64(2), i64(0), i64(3)))], tags=("for",))
 _reg(s_loop_in_if, [dict(X=_X3[0], N=i64(3), c=np.array(True)), dict(X=_X3[0], N=i64(3), c=np.array(False)),
                     dict(X=_X3[2], N=i64(0), c=np.array(True))], tags=("for", "if"))
 _reg(s_nested_for, [dict(X=x, N=n) for x, n in zip(_X3, (i64(2), i64(0), i64(3)))], tags=("for",))
